@@ -91,6 +91,7 @@ func regexLanguage(re *syntax.Regexp, bound int) ([]string, bool) {
 func runC17(c *Ctx, r *Report) {
 	l := c.L
 	defer c17r11(c, r)
+	defer c17r12(c, r)
 	po := l.Fn("fzf", "ParseOptions")
 	pos := l.Fn("fzf", "parseOptions")
 	if po == nil || pos == nil {
